@@ -1023,9 +1023,21 @@ where
 
     let boundary_vertices = build_boundary_vertex_set(tds, facet_to_cells)?;
 
+    // Vertex stars by one scan over the stored cells. A local walk from `incident_cell` through
+    // facet neighbours only reaches the facet-connected part of a star, so for a star pinched at
+    // the vertex it would see one well-formed piece and accept the vertex.
+    let mut stars: FastHashMap<VertexKey, SmallBuffer<CellKey, 8>> =
+        fast_hash_map_with_capacity(tds.number_of_vertices().max(1));
+    for (cell_key, cell) in tds.cells() {
+        for &vk in cell.vertices() {
+            stars.entry(vk).or_default().push(cell_key);
+        }
+    }
+
     for (vertex_key, _vertex) in tds.vertices() {
         let interior_vertex = !boundary_vertices.contains(&vertex_key);
-        validate_single_vertex_link(tds, vertex_key, interior_vertex)?;
+        let star_cells = stars.get(&vertex_key).map_or(&[][..], |s| s.as_slice());
+        validate_single_vertex_link_with_star(tds, vertex_key, interior_vertex, star_cells)?;
     }
 
     Ok(())
@@ -1172,6 +1184,7 @@ fn validate_vertex_link_d2(
     }
 }
 
+#[cfg(test)]
 fn validate_single_vertex_link<T, U, V, const D: usize>(
     tds: &Tds<T, U, V, D>,
     vertex_key: VertexKey,
@@ -1184,6 +1197,21 @@ where
 {
     // Collect the star of the vertex.
     let star_cells = simplex_star_cells(tds, &[vertex_key])?;
+    validate_single_vertex_link_with_star(tds, vertex_key, interior_vertex, &star_cells)
+}
+
+/// [`validate_single_vertex_link`] for a star supplied by the caller (all cells containing the vertex).
+fn validate_single_vertex_link_with_star<T, U, V, const D: usize>(
+    tds: &Tds<T, U, V, D>,
+    vertex_key: VertexKey,
+    interior_vertex: bool,
+    star_cells: &[CellKey],
+) -> Result<(), ManifoldError>
+where
+    T: CoordinateScalar,
+    U: DataType,
+    V: DataType,
+{
     if star_cells.is_empty() {
         // A vertex with empty star violates purity for a non-empty triangulation.
         return Err(ManifoldError::VertexLinkNotManifold {
@@ -1197,7 +1225,7 @@ where
         });
     }
 
-    let link_simplices = simplex_link_simplices_from_star(tds, &[vertex_key], &star_cells)?;
+    let link_simplices = simplex_link_simplices_from_star(tds, &[vertex_key], star_cells)?;
 
     // D=1: the link is a 0-manifold (S^0 for interior vertices, B^0 for boundary vertices).
     if D == 1 {
@@ -1413,6 +1441,15 @@ fn validate_link_facets_and_boundary<const D: usize>(
     struct FacetInfo {
         vertices: VertexKeyBuffer,
         count: usize,
+        first_cell: usize,
+    }
+
+    fn find_root(parent: &mut [usize], mut x: usize) -> usize {
+        while parent[x] != x {
+            parent[x] = parent[parent[x]];
+            x = parent[x];
+        }
+        x
     }
 
     let mut facet_map: FastHashMap<u64, FacetInfo> =
@@ -1420,7 +1457,12 @@ fn validate_link_facets_and_boundary<const D: usize>(
 
     let mut facet_vertices: VertexKeyBuffer = VertexKeyBuffer::with_capacity(D.saturating_sub(1));
 
-    for simplex in link_cells {
+    // Union-find over the link cells, joined whenever two of them share a link facet. A manifold
+    // link is strongly connected; connectivity of the 1-skeleton alone would also accept pieces
+    // that merely touch in a lower-dimensional face (a pinched link).
+    let mut component: Vec<usize> = (0..link_cells.len()).collect();
+
+    for (cell_index, simplex) in link_cells.iter().enumerate() {
         if simplex.len() != D {
             return (0, false);
         }
@@ -1442,10 +1484,21 @@ fn validate_link_facets_and_boundary<const D: usize>(
             let entry = facet_map.entry(key).or_insert_with(|| FacetInfo {
                 vertices: facet_vertices.clone(),
                 count: 0,
+                first_cell: cell_index,
             });
             entry.count += 1;
+            if entry.first_cell != cell_index {
+                let a = find_root(&mut component, entry.first_cell);
+                let b = find_root(&mut component, cell_index);
+                component[a] = b;
+            }
         }
     }
+
+    let strongly_connected = {
+        let root = find_root(&mut component, 0);
+        (1..link_cells.len()).all(|i| find_root(&mut component, i) == root)
+    };
 
     let mut boundary_facet_count = 0usize;
     for info in facet_map.values() {
@@ -1454,6 +1507,10 @@ fn validate_link_facets_and_boundary<const D: usize>(
             2 => {}
             _ => return (boundary_facet_count, false),
         }
+    }
+
+    if !strongly_connected {
+        return (boundary_facet_count, false);
     }
 
     // Interior vertex => link must be closed (no boundary facets).
